@@ -1,10 +1,194 @@
-//! Thorough tier: coverage-guided campaigns with cargo-fuzz (libFuzzer) over the byte-decodable domains.
-//! The fuzz targets live in harness/fuzz and share the oracles of this crate; a crash is converted into a
-//! failure with the tape that reproduces it through the same generator.
-use crate::engine::{Stats, Tier};
-use serde_json::Value;
+//! Coverage-guided campaigns (cargo-fuzz / libFuzzer) over the byte-decodable domains, thorough tier.
+//! The fuzz targets (harness/fuzz) decode bytes into the same choice tape the proptest generators read and
+//! run the same oracle in-process; a crash artifact is decoded again here and becomes an ordinary replay file.
+use crate::engine::{self, Ctx, Failure, Stats, Tape, Tier};
+use serde_json::{json, Value};
+use std::process::Command;
 
-/// placeholder wiring: filled in once the fuzz crate exists (see harness/fuzz)
-pub fn maybe_fuzz(_id: &str, _target: &str, _tier: Tier, _seed: u64, _stats: &mut Stats, extra: Value) -> Value {
+pub fn tape_from_bytes(data: &[u8]) -> Vec<u64> {
+    data.chunks(8)
+        .map(|c| {
+            let mut b = [0u8; 8];
+            b[..c.len()].copy_from_slice(c);
+            u64::from_le_bytes(b)
+        })
+        .collect()
+}
+pub fn bytes_from_tape(t: &[u64]) -> Vec<u8> {
+    t.iter().flat_map(|v| v.to_le_bytes()).collect()
+}
+
+/// run generator + oracle of a target on one input; Some((failure, case)) on a violation
+pub fn run_target(target: &str, data: &[u8]) -> Option<(Failure, Value)> {
+    let tp = tape_from_bytes(data);
+    let mut t = Tape::new(&tp);
+    let mut ctx = Ctx::default();
+    macro_rules! go {
+        ($gen:expr, $check:expr) => {{
+            let c = $gen(&mut t, Tier::Thorough)?;
+            match $check(&c, &mut ctx) {
+                Ok(()) => None,
+                Err(f) => Some((f, serde_json::to_value(&c).unwrap_or(Value::Null))),
+            }
+        }};
+    }
+    match target {
+        "gamma_quantile" => go!(super::c12::gen_case, super::c12::check),
+        "graph_table" => {
+            // one tape, two oracles: table contents (C03) and the accept/reject decision (C05)
+            let g = super::c03::gen_case(&mut t, Tier::Thorough)?;
+            if let Err(f) = super::c03::check(&g, &mut ctx) {
+                return Some((f, serde_json::to_value(&g).unwrap_or(Value::Null)));
+            }
+            let c5 = super::c05::Case { g: g.clone(), pushed: None };
+            if let Err(f) = super::c05::check(&c5, &mut ctx) {
+                return Some((Failure::new(format!("C05:{}", f.signature), f.message), serde_json::to_value(&c5).unwrap_or(Value::Null)));
+            }
+            if let Err(f) = super::c04::check(&g, &mut ctx) {
+                return Some((Failure::new(format!("C04:{}", f.signature), f.message), serde_json::to_value(&g).unwrap_or(Value::Null)));
+            }
+            None
+        }
+        "edge_select" => go!(super::c06::gen_case, super::c06::check),
+        "matrix_decomp" => {
+            let c = super::c15::gen_case(&mut t, Tier::Thorough)?;
+            if let Err(f) = super::c15::check(&c, &mut ctx) {
+                return Some((f, serde_json::to_value(&c).unwrap_or(Value::Null)));
+            }
+            let c16 = super::c16::gen_case(&mut t, Tier::Thorough)?;
+            match super::c16::check(&c16, &mut ctx) {
+                Ok(()) => None,
+                Err(f) => Some((Failure::new(format!("C16:{}", f.signature), f.message), serde_json::to_value(&c16).unwrap_or(Value::Null))),
+            }
+        }
+        _ => None,
+    }
+}
+
+/// entry point used by the libFuzzer targets
+pub fn fuzz_entry(target: &str, data: &[u8]) {
+    use std::sync::Once;
+    static INIT: Once = Once::new();
+    INIT.call_once(|| {
+        // libfuzzer-sys installs an aborting panic hook; the oracles rely on catch_unwind around the code under test
+        engine::install_panic_hook();
+    });
+    let known = engine::load_known();
+    if let Some((f, _case)) = run_target(target, data) {
+        let id = target_property(target, &f);
+        if engine::known_match(&known, id, &f).is_some() {
+            return;
+        }
+        eprintln!("FUZZ-VIOLATION target={target} signature={} message={}", f.signature, engine::truncate(&f.message, 600));
+        std::process::abort();
+    }
+}
+fn target_property(target: &str, f: &Failure) -> &'static str {
+    match (target, f.signature.split(':').next().unwrap_or("")) {
+        (_, "C05") => "C05",
+        (_, "C04") => "C04",
+        (_, "C16") => "C16",
+        ("gamma_quantile", _) => "C12",
+        ("graph_table", _) => "C03",
+        ("edge_select", _) => "C06",
+        _ => "C15",
+    }
+}
+
+/// thorough tier: build and run a libFuzzer campaign with a fixed number of runs; quick tier: nothing
+pub fn maybe_fuzz(id: &str, target: &str, tier: Tier, seed: u64, stats: &mut Stats, mut extra: Value) -> Value {
+    if tier != Tier::Thorough || std::env::var("VERIF_NO_FUZZ").is_ok() {
+        return extra;
+    }
+    let root = engine::verif_root();
+    let fdir = root.join("harness").join("fuzz");
+    let tdir = fdir.join("target");
+    let build = Command::new("cargo").args(["+nightly", "fuzz", "build", "--fuzz-dir"]).arg(&fdir).arg("--target-dir").arg(&tdir).arg(target).env("CARGO_NET_OFFLINE", "true").current_dir(root.join("harness")).output();
+    match build {
+        Ok(o) if o.status.success() => {}
+        Ok(o) => {
+            extra["fuzz"] = json!(format!("fuzz build failed (campaign skipped, reported as inconclusive part): {}", engine::truncate(&String::from_utf8_lossy(&o.stderr), 400)));
+            return extra;
+        }
+        Err(e) => {
+            extra["fuzz"] = json!(format!("cargo fuzz not runnable: {e}"));
+            return extra;
+        }
+    }
+    // fresh corpus seeded with tapes drawn from proptest's generator (full-length inputs from the start)
+    let corpus = fdir.join("corpus").join(format!("{target}-{seed}"));
+    let _ = std::fs::remove_dir_all(&corpus);
+    let _ = std::fs::create_dir_all(&corpus);
+    let tape_len = match target {
+        "gamma_quantile" => 24,
+        _ => 300,
+    };
+    for (i, tp) in engine::sample_tapes(target, seed, 64, tape_len).iter().enumerate() {
+        let _ = std::fs::write(corpus.join(format!("seed{i:03}")), bytes_from_tape(tp));
+    }
+    let art = fdir.join("artifacts").join(target);
+    let _ = std::fs::create_dir_all(&art);
+    let runs: u64 = match target {
+        "gamma_quantile" => 3_000_000,
+        "graph_table" => 300_000,
+        _ => 600_000,
+    };
+    let bin = tdir.join("x86_64-unknown-linux-gnu").join("release").join(target);
+    let jobs = 8;
+    let out = Command::new(&bin)
+        .arg(&corpus)
+        .arg(format!("-runs={}", runs / jobs))
+        .arg(format!("-seed={}", (seed % 0xFFFF_FFFE) + 1))
+        .arg(format!("-max_len={}", tape_len * 8))
+        .arg("-len_control=0")
+        .arg(format!("-artifact_prefix={}/", art.display()))
+        .arg(format!("-fork={jobs}"))
+        .arg("-ignore_crashes=0")
+        .env("VERIF_ROOT", &root)
+        .output();
+    let mut nexec = 0u64;
+    match out {
+        Err(e) => {
+            extra["fuzz"] = json!(format!("fuzz target not runnable: {e}"));
+        }
+        Ok(o) => {
+            let log = String::from_utf8_lossy(&o.stderr).to_string();
+            for line in log.lines() {
+                if let Some(p) = line.find("stat::number_of_executed_units:") {
+                    nexec += line[p + 31..].trim().parse::<u64>().unwrap_or(0);
+                }
+                if line.starts_with('#') {
+                    if let Some(n) = line[1..].split_whitespace().next().and_then(|s| s.parse::<u64>().ok()) {
+                        nexec = nexec.max(n);
+                    }
+                }
+            }
+            // any artifact = a crash: decode and re-run through the plain oracle
+            let mut crashes = 0;
+            if let Ok(rd) = std::fs::read_dir(&art) {
+                for e in rd.flatten() {
+                    let name = e.file_name().to_string_lossy().to_string();
+                    if !(name.starts_with("crash-") || name.starts_with("timeout-") || name.starts_with("oom-")) {
+                        continue;
+                    }
+                    if let Ok(data) = std::fs::read(e.path()) {
+                        if let Some((f, case)) = run_target(target, &data) {
+                            crashes += 1;
+                            let sig = f.signature.clone();
+                            let owner = target_property(target, &f);
+                            if owner == id {
+                                stats.failures.push((Failure::new(format!("fuzz:{sig}"), f.message), case));
+                            } else {
+                                extra[format!("fuzz_found_violation_of_{owner}")] = json!(f.message);
+                            }
+                        }
+                    }
+                    let _ = std::fs::remove_file(e.path());
+                }
+            }
+            extra["fuzz"] = json!({"engine": "libFuzzer (cargo-fuzz)", "target": target, "executions": nexec, "requested_runs": runs, "crashing_inputs_confirmed_by_oracle": crashes, "exit": o.status.code()});
+        }
+    }
+    let _ = std::fs::remove_dir_all(&corpus);
     extra
 }
